@@ -138,6 +138,13 @@ CHECKS["C12"] = dict(
     note="Bounded for clocked trees (depth K). Trusted: front end's port-map flattening (aliases for plain names, implicit assignments otherwise), z3. The interface / ordering part is a deterministic reading of the text.",
     technique="symbolic equivalence (z3) of two compiler outputs: hierarchical vs inlined design",
 )
+CHECKS["C20"] = dict(
+    category="model_checking",
+    text="Register maps connected through std.axi.axi4_light (Register with MemField/Field, MemWords with unmapped holes, nested RegFiles; 8-bit addresses, 32-bit data) are unrolled K=8 (quick) / 10 (thorough) clocks from power-up against a fully symbolic AXI4-Lite master: arbitrary valid/ready/address/data/strobe on all five channels at every clock under the master rules (valid held, payload stable until ready). z3 proves the protocol monitor (each request answered exactly once, no response without request, valids never withdrawn, payload stable) and the data monitor (a read returns the ghost register value; a write merges exactly the strobed bytes of exactly the addressed register; unmapped writes change nothing) at every clock, plus bounded progress with an always-willing master.",
+    design_ref="DESIGN.md 3/C20",
+    note="Bounded claim (depth K; the unsat proof grows steeply with K: 25 s at K=8, 6 min at K=10 per map). Trusted: VHDL-subset semantics, ghost register/transaction model, z3. Read data of unmapped addresses and hardware-side notifications are not constrained.",
+    technique="bounded model checking (z3, QF_BV) of interpreted emitted VHDL with protocol and data monitors",
+)
 NA = {
     "C11": "not applicable: the quantifier is over histories of whole-compiler runs and interpreter hash seeds; every point is one concrete whole-program compilation, there is no data domain to make symbolic and CrossHair cannot trace the compiler (probed, DESIGN.md section 3/C11 and 4); using a solver only to pick history indices would be enumeration of concrete runs under another name",
 }
